@@ -70,7 +70,15 @@ def _near_boundary(draw):
 def parts(tier):
     q = tier == "quick"
     return [Part("events", strategy=evrun.event_case("events", terminal_mode="none"), examples=700 if q else 15000, timeout=300),
-            Part("near_boundary", strategy=_near_boundary(), examples=400 if q else 8000, timeout=300)]
+            Part("near_boundary", strategy=_near_boundary(), examples=400 if q else 8000, timeout=300),
+            Part("tiny_steps", strategy=_tiny_steps(), examples=200 if q else 4000, timeout=300)]
+
+
+def _tiny_steps():
+    """steps of 2^10 .. 2^23 ulps of t far from t = 0 (the generator of C08's part of the same name): every direction probe
+    lands on the root's own floating-point number; events with direction +1 / -1 in both directions of time"""
+    from pbt.props import c08
+    return c08._tiny_steps().map(lambda c: dict(c, part="tiny_steps"))
 
 
 def check(case):
